@@ -184,6 +184,10 @@ class Peer:
             r = self._normal(op, args, req)
             r.headers = list(r.headers) + [("Set-Cookie", dev.get("value", "session=canary-cookie; Path=/"))]
             return r
+        if kind == "secret_headers":
+            r = self._normal(op, args, req)
+            r.headers = list(r.headers) + [("Set-Cookie", f"sid={dev['cookie']}; Path=/"), ("X-Auth-Token", dev["token"])]
+            return r
         if kind == "big_body":
             r = self._normal(op, args, req)
             r.body = json.dumps({"id": 1, "blob": "x" * dev.get("size", 1 << 20)}).encode()
